@@ -138,7 +138,7 @@ impl Gen {
     fn leaf(&mut self, l: char, depth: usize, exec_ok: bool, out: &mut String) {
         let mut kind = self.pick(&[
             "special", "builtin", "builtin", "function", "function", "group", "group", "subshell", "subshell",
-            "notfound", "external", "empty", "exec",
+            "notfound", "external", "empty", "exec", "dot", "cmddot",
         ]);
         // `exec` changes the table of the enclosing command for good: only
         // where no enclosing command of the same process is being judged
@@ -172,11 +172,11 @@ impl Gen {
                 _ => format!("case x in x) {body};; esac {rs}"),
             },
             "function" => format!("fn{l} {rs}"),
-            // the other special built-in that runs commands: `.` reads them from a
-            // file, which the shell keeps open on a descriptor of its own meanwhile
-            "special" if self.lim == NO_LIMIT && self.rng.gen_bool(0.5) => {
+            // the dot built-in reads the body from a file, which the shell keeps
+            // open on a descriptor of its own meanwhile
+            "dot" | "cmddot" => {
                 self.dots.push((format!("/tmp/dot{l}"), format!("{body}\n")));
-                format!(". /tmp/dot{l} {rs}")
+                format!("{}. /tmp/dot{l} {rs}", if kind == "cmddot" { "command " } else { "" })
             }
             _ => {
                 let t = scen::command_text(kind, bst, &json!([]), &tag, &marks, "");
